@@ -32,12 +32,21 @@ theorem erase_rootPart (a : Root) (s j keep : Nat) :
 theorem gfin_rootPart (L : Layout) (a : Root) (s j keep : Nat) (g : G) :
     (gfin L g (rootPart a s j keep)).gen = a.gen ∧ (gfin L g (rootPart a s j keep)).free = g.free ∧
     (gfin L g (rootPart a s j keep)).next = (if 3 ≤ j then L.other g.next else g.next) ∧
-    (gfin L g (rootPart a s j keep)).done = (if 3 ≤ j then some a else g.done) := by
+    (gfin L g (rootPart a s j keep)).done = (if 3 ≤ j then some a else g.done) ∧
+    (gfin L g (rootPart a s j keep)).recs = g.recs := by
   match j with
-  | 0 => exact ⟨rfl, rfl, rfl, rfl⟩
-  | 1 => exact ⟨rfl, rfl, rfl, rfl⟩
-  | 2 => exact ⟨rfl, rfl, rfl, rfl⟩
-  | j + 3 => exact ⟨rfl, rfl, by simp [rootPart, gfin, gnext], by simp [rootPart, gfin, gnext]⟩
+  | 0 => exact ⟨rfl, rfl, rfl, rfl, rfl⟩
+  | 1 => exact ⟨rfl, rfl, rfl, rfl, rfl⟩
+  | 2 => exact ⟨rfl, rfl, rfl, rfl, rfl⟩
+  | j + 3 => exact ⟨rfl, rfl, by simp [rootPart, gfin, gnext], by simp [rootPart, gfin, gnext], rfl⟩
+
+theorem noAdv_rootPart (a : Root) (s j keep : Nat) (r : Rec) : AOp.advance r ∉ rootPart a s j keep := by
+  intro h
+  match j with
+  | 0 => simp [rootPart] at h
+  | 1 => simp [rootPart] at h
+  | 2 => simp [rootPart] at h
+  | j + 3 => simp [rootPart] at h
 
 theorem rootw_rootPart (a : Root) (s j keep : Nat) (r : Root) (off : Nat) (b : Bytes)
     (h : AOp.rootw r off b ∈ rootPart a s j keep) : r = a := by
